@@ -952,10 +952,17 @@ def read_fault_cases(rng, cases, res):
                 w.writerow(r)
             return "\n".join(head) + "\n" + buf.getvalue()
 
-        kind = str(rng.choice(["ragged", "more_columns", "fewer_columns", "unparseable_cell", "header_name", "schema_type", "schema_nofill"]))
+        kind = str(rng.choice(["ragged", "ragged_longer", "ragged_duplicated_cell", "more_columns", "fewer_columns", "unparseable_cell", "header_name",
+                               "schema_type", "schema_nofill"]))
         rows2 = [list(r) for r in rows]
         if kind == "ragged" and ncol >= 2:
             rows2[int(rng.integers(1, len(rows2)))].pop()
+        elif kind == "ragged_longer" and len(rows2) >= 3:
+            rows2[int(rng.integers(1, len(rows2)))].append("x")          # ONE data row with a surplus cell (the others are fine)
+        elif kind == "ragged_duplicated_cell" and len(rows2) >= 3:
+            r_ = rows2[int(rng.integers(1, len(rows2)))]
+            j_ = int(rng.integers(0, len(r_)))
+            r_.insert(j_, r_[j_])                                          # a cell typed twice: the rest of the row shifts right
         elif kind == "more_columns":
             for r in rows2[1:]:
                 r.append("x")
